@@ -112,6 +112,12 @@ class GotranCCodePrinter(C99CodePrinter):
             result.append(";")
             value = "".join(result)
         else:
+            # A conditional with integer values only is an int in C, e.g. '(x > 0) ? 1 : 0',
+            # and dividing two of them is an integer division. Make the values doubles
+            expr = sympy.Piecewise(
+                *[(sympy.Float(e) if e.is_Integer else e, c) for e, c in expr.args],
+                evaluate=False,
+            )
             value = bool_to_int(super()._print_Piecewise(expr))
 
         return value
